@@ -78,7 +78,8 @@ class C20(LineCheck):
         "the per-op and per-handler dumps walk the real tree); ->term is a three-valued state and the local `this` of the got_event frame a "
         "model variable; struct lifetime is a table (freed = absent), the C side shows stale accesses through ASan on poisoned, freed structs",
         "inotify_drv.c: inotify_init/add_watch/rm_watch/read/close are interposed (--wrap); inotify_init returns a real eventfd registered with "
-        "the real epoll; the fd handler is called directly instead of through iv_main; iv_fatal is caught with longjmp",
+        "the real epoll; the fd handler is called directly instead of through iv_main; iv_fatal is caught with longjmp; inotify_rm_watch returns "
+        "EINVAL like the kernel for a wd whose IN_IGNORED record has been queued (the library ignores the result; the model does not see it)",
         "the event bytes of a read are built by the harness with the real struct inotify_event layout and by the model with its own encoder",
         "driver-level (OCaml, unproved) sanity checks around the Coq monitors (mon_feed per read, mon_act per top-level action, dumps_ok): rc/dump "
         "transitions of top-level actions other than the wd -1 clauses, w->mask seen by handlers",
